@@ -198,6 +198,26 @@ def construct (a : Args) : Py.R Rule := do
          byweekday := byweekdayOf a, bynweekday := bynweekdayOf a,
          byhour, byminute, bysecond, timeset }
 
+/-- `self._original_rule` together with the scalar attributes, i.e. the keyword arguments that
+    `rrule.replace()` (with no overrides) passes to the constructor again:
+    `{interval, count, dtstart, freq, until, wkst} ∪ _original_rule`.  A BY part is `none` when its key
+    is absent or `None` in `_original_rule` (not supplied, or taken from dtstart); otherwise it is the
+    normalised tuple (`byweekday`: the plain weekdays followed by the nth ones; `bymonthday`: the
+    positive members followed by the negative ones; `byhour` … after the reachability filter). -/
+def origArgs (a : Args) (r : Rule) : Args :=
+  { freq := r.freq, dtstart := r.dtstart, tz := r.tz, interval := r.interval, wkst := some r.wkst,
+    count := r.count, untilDT := r.untilDT,
+    bysetpos := if truthy r.bysetpos then r.bysetpos else none,
+    bymonth := if noDayParts a && a.freq == 0 && a.bymonth.isNone then none else r.bymonth,
+    bymonthday := if noDayParts a && (a.freq == 0 || a.freq == 1) then none
+                  else a.bymonthday.map (fun _ => r.bymonthday ++ r.bynmonthday),
+    byyearday := r.byyearday, byeaster := r.byeaster, byweekno := r.byweekno,
+    byweekday := if noDayParts a && a.freq == 2 then none
+                 else a.byweekday.map (fun _ => (r.byweekday.getD []).map (fun w => (w, 0)) ++ r.bynweekday.getD []),
+    byhour := a.byhour.bind (fun _ => r.byhour),
+    byminute := a.byminute.bind (fun _ => r.byminute),
+    bysecond := a.bysecond.bind (fun _ => r.bysecond) }
+
 /-! ### `_iterinfo` -/
 
 structure Info where
